@@ -332,7 +332,7 @@ const PRELUDE: &str = "local big = std.repeat('a', 70000), odd = 'x' + std.repea
 const ARGS: &[&str] = &[
 	"null", "true", "false", "0", "-0", "1", "-1", "0.5", "-0.5", "2", "3", "7", "255", "256", "65535", "65536", "2147483647", "2147483648", "-2147483649", "4294967296",
 	"9007199254740991", "9007199254740992", "9007199254740994", "1e308", "-1e308", "5e-324", "1e-7", "1e15", "''", "'a'", "'ab'", "'é'", "'😀'", "'a\\u0000b'", "'%'", "'%('",
-	"'%5.3d'", "'1'", "'-'", "'0x'", "'ff'", "'{\"a\": 1}'", "'a: 1'", "'[1, '", "'\\n'", "' '", "'a,b'", "big", "odd", "[]", "[1]", "[1, 'a']", "[[]]", "[null]", "[3, 1, 2]",
+	"'%5.3d'", "'1'", "'-'", "'0x'", "'ff'", "'{\"a\": 1}'", "'a: 1'", "'[1, '", "'\\n'", "' '", "'a,b'", "big", "odd", "[odd]", "{ a: odd, [odd]: big }", "[]", "[1]", "[1, 'a']", "[[]]", "[null]", "[3, 1, 2]",
 	"['b', 'a']", "[[1, 2], [3]]", "[{ a: 1 }, { a: 2 }]", "arr1001", "std.reverse([1, 2, 3])", "[1, 2, 3, 4, 5][1:3]", "std.repeat([1, 2], 3)", "std.map(function(x) x, [1, 2])",
 	"std.encodeUTF8('aé')", "std.makeArray(3, function(i) i)", "[1, error 'elem']", "[1, 2] + [3]", "{}", "{ a: 1 }", "o2", "{ a: error 'field' }", "{ assert false : 'inv', a: 1 }",
 	"{ a: 1 } + { b: 2 }", "std.objectRemoveKey({ a: 1, b: 2 }, 'a')", "{ a: { b: { c: 1 } } }", "{ a: [1, { b: null }] }", "function() 1", "function(x) x", "function(x, y) x",
